@@ -1,6 +1,8 @@
 import ParryModel.Proto
 import ParryModel.C12.Model
 import ParryModel.C12.Driver2
+import ParryModel.C12.Driver3
+import ParryModel.C12.Polygon
 import Std.Data.HashMap
 /-! C12 protocol handlers. -/
 namespace C12
@@ -192,7 +194,13 @@ def handler (fn : String) : Option Handler :=
             if H1.all (inside H2) && H2.all (inside H1) then "pass" else "fail hull-of-hull-is-a-different-polytope"
           | none => "fail unparsable-output" }
   | "convex_polygon" => some {
-      model := fun _ => some "-"
+      model := fun a => run (do
+        let pts ← plist pv2
+        pure (match Model.Pg.fromConvexHull negMaxF eps100F pts.toArray with
+          | none => "panic"
+          | some none => "none"
+          | some (some p) => String.intercalate " " (
+              [toString p.points.size] ++ p.points.toList.map fv2 ++ [toString p.normals.size] ++ p.normals.toList.map fv2))) a
       oracle := fun a o => match run (plist pv2) a with
         | some input => (match o with
           | "panic" :: _ =>
@@ -265,6 +273,6 @@ def handler (fn : String) : Option Handler :=
               polyOracle none d
             | none => "fail unparsable-output")
         | none => "skip bad-args" }
-  | _ => none
+  | f => handler3 f
 
 end C12
